@@ -1138,6 +1138,9 @@ pub fn exec(op: &str, a: &[&str]) -> Option<String> {
             let mut same_scale = true;
             let mut it = ts;
             for e in &mut it {
+                if count >= cap {
+                    break; // at most `cap` items are observed (the item just pulled is not)
+                }
                 count += 1;
                 if first.len() < 3 {
                     first.push(e2s(e));
@@ -1152,9 +1155,6 @@ pub fn exec(op: &str, a: &[&str]) -> Option<String> {
                 }
                 prev = Some(e);
                 last = Some(e);
-                if count >= cap {
-                    break;
-                }
             }
             // after the end, next() keeps returning None
             let after = if count < cap { b2s(it.next().is_none() && it.next().is_none()) } else { "1" };
